@@ -538,6 +538,8 @@ Lemma or_false_r (P : Prop) : P \/ False <-> P.
 Proof. split; [intros [H|[]]; exact H|intros H; left; exact H]. Qed.
 Lemma false_and (P : Prop) : false = true /\ P <-> False.
 Proof. split; [intros [H _]; discriminate|intros []]. Qed.
+Lemma true_and (P : Prop) : true = true /\ P <-> P.
+Proof. split; [intros [_ H]; exact H|intros H; split; [reflexivity|exact H]]. Qed.
 Lemma false_or (P : Prop) : False \/ P <-> P.
 Proof. split; [intros [[]|H]; exact H|intros H; right; exact H]. Qed.
 Lemma emit_out_nil_iff k b : emit_out [] k b <-> False.
@@ -645,4 +647,122 @@ Section Adapters.
     - apply orb_false_elim in G as [G1 G2]. rewrite G1, G2, flat_map_guard_false, emit_out_nil_iff, !false_and.
       rewrite !ro_single. rewrite !or_false_r. reflexivity.
   Qed.
+
+  Lemma emit_out_when w l k b : emit_out (when w l) k b <-> w = true /\ emit_out l k b.
+  Proof.
+    destruct w; simpl; split.
+    - intros H. split; [reflexivity|exact H].
+    - intros [_ H]. exact H.
+    - intros H. exfalso. exact (emit_out_nil _ _ H).
+    - intros [H _]. discriminate.
+  Qed.
+
+  Lemma vscode_spec t : t_name t = t_vscode -> no_fail (snd (vscode_adapter e t ms)) ->
+    forall k b, emit_out (snd (vscode_adapter e t ms)) k b <-> rules_out t k b.
+  Proof.
+    intros Hn Hnf k b. unfold rules_out.
+    assert (Hr : doc_rules e t =
+      [ RAgg (s "write_instructions") doc_opt_vscode_write_instructions (push (e_project e) (s ".github")) (s "copilot-instructions.md") agg_sep_vscode;
+        RSingle TPrompt (s "write_prompts") doc_opt_vscode_write_prompts (push (push (e_project e) (s ".github")) (s "prompts")) vscode_prompt_name ])
+      by (unfold doc_rules; rewrite Hn; reflexivity).
+    rewrite Hr, !ex_in_cons, ex_in_nil. cbn [rule_opt fst snd].
+    unfold vscode_adapter in *. cbn [snd] in *. rewrite <- Hn in *.
+    destruct (collect_parts (mods_for (t_name t) TInstructions ms)) as [parts|x] eqn:Ec; [|exfalso; exact (no_fail_single x Hnf)].
+    apply no_fail_app in Hnf as [Hnf1 Hnf2]. rewrite emit_out_app, emit_out_when.
+    rewrite (agg_block c prof ms Hsel Hsorted Hnd t agg_sep_vscode parts _ (s "write_instructions") doc_opt_vscode_write_instructions Ec k b), ex_single1.
+    cbn [fst snd]. rewrite <- !flag_opt_on.
+    change doc_opt_vscode_write_instructions with opt_vscode_write_instructions.
+    change doc_opt_vscode_write_prompts with opt_vscode_write_prompts.
+    destruct (flag t (s "write_prompts") opt_vscode_write_prompts) eqn:W2; cbv beta iota in Hnf2; cbv beta iota.
+    - rewrite (single_block c prof ms Hsel Hok t TPrompt _ _ _ (s "write_prompts") opt_vscode_write_prompts (or_introl eq_refl) Hnf2 k b), ex_single1.
+      rewrite or_false_r, true_and. reflexivity.
+    - rewrite flat_map_guard_false, emit_out_nil_iff, false_and, !or_false_r. reflexivity.
+  Qed.
+
+  Lemma codex_spec t : t_name t = t_codex -> no_fail (snd (codex_adapter e t ms)) ->
+    forall k b, emit_out (snd (codex_adapter e t ms)) k b <-> rules_out t k b.
+  Proof.
+    intros Hn Hnf k b. unfold rules_out.
+    assert (Hr : doc_rules e t =
+      [ RAgg (s "write_agents_global") doc_opt_codex_write_agents_global (codex_home e (t_opts t)) agents_md agg_sep_codex;
+        RAgg (s "write_agents_repo_root") doc_opt_codex_write_agents_repo_root (e_project e) agents_md agg_sep_codex;
+        RSingle TPrompt (s "write_user_prompts") doc_opt_codex_write_user_prompts (push (codex_home e (t_opts t)) (s "prompts")) (fun n => n);
+        RSkills (s "write_user_skills") doc_opt_codex_write_user_skills (push (codex_home e (t_opts t)) (s "skills"));
+        RSkills (s "write_repo_skills") doc_opt_codex_write_repo_skills (push (e_project e) (s ".codex/skills")) ])
+      by (unfold doc_rules; rewrite Hn; reflexivity).
+    rewrite Hr, !ex_in_cons, ex_in_nil. cbn [rule_opt fst snd].
+    unfold codex_adapter in *. cbn [snd] in *. rewrite <- Hn in *.
+    destruct (collect_parts (mods_for (t_name t) TInstructions ms)) as [parts|x] eqn:Ec; [|exfalso; exact (no_fail_single x Hnf)].
+    apply no_fail_app in Hnf as [Hnf1 Hnf23]. apply no_fail_app in Hnf23 as [Hnf2 Hnf3]. rewrite !emit_out_app.
+    rewrite (agg_block c prof ms Hsel Hsorted Hnd t agg_sep_codex parts _ (s "write_agents_global") doc_opt_codex_write_agents_global Ec k b), ex_when2.
+    cbn [fst snd].
+    rewrite (skills_block c prof ms Hsel t _ (s "write_user_skills") doc_opt_codex_write_user_skills Hnf3 k b), ex_when2.
+    rewrite <- !flag_opt_on.
+    change doc_opt_codex_write_agents_global with opt_codex_write_agents_global.
+    change doc_opt_codex_write_agents_repo_root with opt_codex_write_agents_repo_root.
+    change doc_opt_codex_write_user_prompts with opt_codex_write_user_prompts.
+    change doc_opt_codex_write_user_skills with opt_codex_write_user_skills.
+    change doc_opt_codex_write_repo_skills with opt_codex_write_repo_skills.
+    rewrite !ro_agg, !ro_skills.
+    destruct (flag t (s "write_user_prompts") opt_codex_write_user_prompts) eqn:W3; cbv beta iota in Hnf2; cbv beta iota.
+    - rewrite (single_block c prof ms Hsel Hok t TPrompt _ _ _ (s "write_user_prompts") opt_codex_write_user_prompts (or_introl eq_refl) Hnf2 k b), ex_single1.
+      rewrite or_false_r, true_and, !or_assoc. reflexivity.
+    - rewrite flat_map_guard_false, emit_out_nil_iff, false_and, or_false_r, !false_or, !or_assoc. reflexivity.
+  Qed.
+
+  (* all six (and the silently skipped unknown names) *)
+  Lemma adapter_spec t : no_fail (snd (adapter e ms t)) ->
+    forall k b, emit_out (snd (adapter e ms t)) k b <-> rules_out t k b.
+  Proof.
+    unfold adapter.
+    destruct (str_eqb (t_name t) t_codex) eqn:E1; [apply str_eqb_eq in E1; apply codex_spec; exact E1|].
+    destruct (str_eqb (t_name t) t_claude) eqn:E2; [apply str_eqb_eq in E2; apply claude_spec; exact E2|].
+    destruct (str_eqb (t_name t) t_cursor) eqn:E3; [apply str_eqb_eq in E3; apply cursor_spec; exact E3|].
+    destruct (str_eqb (t_name t) t_vscode) eqn:E4; [apply str_eqb_eq in E4; apply vscode_spec; exact E4|].
+    destruct (str_eqb (t_name t) t_jetbrains) eqn:E5; [apply str_eqb_eq in E5; apply jetbrains_spec; exact E5|].
+    destruct (str_eqb (t_name t) t_zed) eqn:E6; [apply str_eqb_eq in E6; apply zed_spec; exact E6|].
+    intros _ k b. unfold rules_out, doc_rules.
+    change (s "codex") with t_codex. change (s "claude_code") with t_claude. change (s "cursor") with t_cursor.
+    change (s "vscode") with t_vscode. change (s "jetbrains") with t_jetbrains. change (s "zed") with t_zed.
+    rewrite E1, E2, E3, E4, E5, E6. cbn [snd]. rewrite ex_in_nil. apply emit_out_nil_iff.
+  Qed.
 End Adapters.
+
+Lemma emit_out_flat_map {A} (f : A -> list step) l k b :
+  emit_out (flat_map f l) k b <-> exists x, In x l /\ emit_out (f x) k b.
+Proof.
+  unfold emit_out. split.
+  - intros [em [H R]]. apply in_flat_map in H as [x [Hx H]]. exists x. split; [exact Hx|]. exists em. split; assumption.
+  - intros [x [Hx [em [H R]]]]. exists em. split; [apply in_flat_map; exists x; split; assumption|exact R].
+Qed.
+
+(* the desired map = the documented outputs *)
+Theorem refines_spec c e prof filt D R :
+  NoDup (map m_id (c_modules c)) -> NoDup (map t_name (c_targets c)) ->
+  (forall m, In m (c_modules c) -> NoDup (map f_rel (m_files m))) -> cfg_ok c ->
+  render c e prof filt = Ok (D, R) ->
+  forall k b, (exists x, lookup D k = Some x /\ d_bytes x = b) <-> spec_output c e prof filt k b.
+Proof.
+  intros Hids Htn Hnd Hok Hr k b. unfold render in Hr.
+  destruct (select_modules c prof) as [ms|] eqn:Hs; [|discriminate].
+  destruct (selected_targets c filt) as [ts|x] eqn:Ht; [|discriminate].
+  destruct (run [] (all_steps e ms ts)) as [D0|x] eqn:Rn; [|discriminate].
+  inversion Hr; subst D0 R. clear Hr.
+  destruct (run_ok _ _ _ _ inv_nil Rn) as [Hnf I]. simpl in I.
+  destruct (select_modules_spec c prof ms Hids Hs) as [Hsel Hsorted].
+  rewrite (lookup_emits _ _ I k b).
+  assert (E1 : (exists em, In em (emits_of (all_steps e ms ts)) /\ e_key em = k /\ e_bytes em = b) <->
+               emit_out (all_steps e ms ts) k b).
+  { unfold emit_out. split; intros [em [H Rk]]; exists em; (split; [apply emits_of_in; exact H|exact Rk]). }
+  rewrite E1. unfold all_steps in *. rewrite emit_out_flat_map. rewrite no_fail_flat_map in Hnf.
+  unfold spec_output. split.
+  - intros [t [Hin H]]. apply (adapter_spec c e prof ms Hsel Hsorted Hnd Hok t (Hnf t Hin)) in H as [r [Hr [Ho Hout]]].
+    exists t, r. split; [apply (selected_targets_spec c filt ts Htn Ht); exact Hin|]. split; [exact Hr|]. split; assumption.
+  - intros [t [r [Hon [Hr [Ho Hout]]]]]. apply (selected_targets_spec c filt ts Htn Ht) in Hon.
+    exists t. split; [exact Hon|]. apply (adapter_spec c e prof ms Hsel Hsorted Hnd Hok t (Hnf t Hon)).
+    exists r. split; [exact Hr|]. split; assumption.
+Qed.
+
+(* the docs' option table and the source's are the same table (re-checked on every run) *)
+Lemma doc_table_matches_source : doc_render_option_table = render_option_table.
+Proof. vm_compute. reflexivity. Qed.
